@@ -1212,7 +1212,9 @@ impl ObjectFile {
 
         for (addr, block) in b_block_map {
             if a_obj.block_map.insert(addr, block).is_some() {
-                return Err(AsmErr::new(AsmErrKind::OverlappingBlocks, []));
+                // There is no single source to point into when linking, so use an empty span
+                // (an empty span *list* would make `ErrSpan::first` panic).
+                return Err(AsmErr::new(AsmErrKind::OverlappingBlocks, 0..0));
             }
         }
 
@@ -1224,7 +1226,7 @@ impl ObjectFile {
             let br = b_st .. (b_st + b_bl.len() as u16);
             ranges_overlap(ar, br)
         }) {
-            return Err(AsmErr::new(AsmErrKind::OverlappingBlocks, []));
+            return Err(AsmErr::new(AsmErrKind::OverlappingBlocks, 0..0));
         }
 
         // Merge symbol tables:
